@@ -64,6 +64,8 @@ func c10Hook(point string, args ...interface{}) {
 type c10Rule struct {
 	prio        int
 	fails, kids bool
+	mode        int // how a sink fails: 1 raise, 2 runtime error (unknown function), 3 top-level return
+	frac        int // sinks: digit after the decimal point of the priority (the interpreter floors)
 }
 
 // c10Lifecycle replays a history of life-cycle calls (letters: see parseHistory in the Lean
@@ -113,20 +115,22 @@ func c10Lifecycle(proc engine.Processor, hist string, load func()) {
 	}
 }
 
-func c10RunRules(flag bool, hist string, specs []c10Rule) string {
+func c10RunRules(flag bool, hist string, specs []c10Rule, names bool) string {
 	proc := engine.NewProcessor(1)
 	proc.SetFailOnFirstErrorInTriggerSequence(flag)
 	var mu sync.Mutex
 	var started []string
+	var startedNames []string
 	kids := 0
 	var rules []*engine.Rule
 	for i := range specs {
-		sp := specs[i]
+		sp, i := specs[i], i
 		rules = append(rules, (&engine.Rule{
 			Name: fmt.Sprintf("r%d", i), KindMatch: []string{"e"}, ScopeMatch: []string{}, Priority: sp.prio,
 			Action: func(p engine.Processor, m engine.Monitor, e *engine.Event, tid uint64) error {
 				mu.Lock()
 				started = append(started, strconv.Itoa(sp.prio))
+				startedNames = append(startedNames, strconv.Itoa(i))
 				mu.Unlock()
 				if sp.kids {
 					if _, err := p.AddEvent(engine.NewEvent("kid", []string{"c"}, nil), m.NewChildMonitor(sp.prio)); err != nil {
@@ -162,9 +166,16 @@ func c10RunRules(flag bool, hist string, specs []c10Rule) string {
 		for _, te := range rm.AllErrors() {
 			for name := range te.ErrorMap {
 				i, _ := strconv.Atoi(strings.TrimPrefix(name, "r"))
-				errPrios = append(errPrios, specs[i].prio)
+				if names {
+					errPrios = append(errPrios, i)
+				} else {
+					errPrios = append(errPrios, specs[i].prio)
+				}
 			}
 		}
+	}
+	if names {
+		started = startedNames
 	}
 	sort.Ints(errPrios)
 	es := make([]string, len(errPrios))
@@ -195,12 +206,23 @@ var (
 func c10RunSinks(hist string, specs []c10Rule) string {
 	var src strings.Builder
 	for i, sp := range specs {
-		fmt.Fprintf(&src, "sink s%d\n  kindmatch [\"e\"],\n  priority %d\n{\n  x.c10log(%d)\n", i, sp.prio, sp.prio)
+		prio := strconv.Itoa(sp.prio)
+		if sp.frac > 0 && sp.prio >= 0 {
+			prio += "." + strconv.Itoa(sp.frac)
+		}
+		fmt.Fprintf(&src, "sink s%d\n  kindmatch [\"e\"],\n  priority %s\n{\n  x.c10log(%d)\n", i, prio, sp.prio)
 		if sp.kids {
 			src.WriteString("  addEvent(\"kid\", \"c\", {})\n")
 		}
 		if sp.fails {
-			src.WriteString("  raise(\"scripted\", \"failure\")\n")
+			switch sp.mode {
+			case 2:
+				src.WriteString("  c10thisfunctiondoesnotexist()\n")
+			case 3:
+				src.WriteString("  return 1\n")
+			default:
+				src.WriteString("  raise(\"scripted\", \"failure\")\n")
+			}
 		}
 		src.WriteString("}\n")
 	}
@@ -616,7 +638,14 @@ func c10RulePayload(flag bool, rs []c10Rule) string {
 		return "0"
 	}
 	for _, r := range rs {
-		fmt.Fprintf(&sb, " %d:%s:%s", r.prio, b(r.fails), b(r.kids))
+		f := b(r.fails)
+		if r.fails && r.mode > 1 {
+			f = strconv.Itoa(r.mode)
+		}
+		fmt.Fprintf(&sb, " %d:%s:%s", r.prio, f, b(r.kids))
+		if r.frac > 0 {
+			fmt.Fprintf(&sb, ":%d", r.frac)
+		}
 	}
 	return sb.String()
 }
@@ -807,9 +836,29 @@ func c10RandomRoots(g *Gen, maxRoots, maxNodes int, negative bool) string {
 	return strings.Join(roots, "|")
 }
 
+func c10ParseRule(s string) c10Rule {
+	x := strings.Split(s, ":")
+	p, _ := strconv.Atoi(x[0])
+	r := c10Rule{prio: p, fails: x[1] != "0", kids: x[2] == "1", mode: 1}
+	if r.fails {
+		r.mode, _ = strconv.Atoi(x[1])
+	}
+	if len(x) > 3 {
+		r.frac, _ = strconv.Atoi(x[3])
+	}
+	return r
+}
+
 func init() {
 	register("C10", &Prop{
-		Timeout:          20 * time.Second,
+		Timeout: 20 * time.Second,
+		Tool: func(args []string) int {
+			if len(args) == 2 && args[0] == "facts" {
+				return c10Facts(args[1])
+			}
+			fmt.Fprintln(os.Stderr, "usage: harness C10 -tool facts <out.lean>")
+			return 2
+		},
 		NoRestartOnPanic: false,
 		Setup: func() {
 			verifhook.SetHandler(c10Hook)
@@ -837,6 +886,10 @@ func init() {
 				"R 0 0:0:1 1:0:0 2:1:1 3:0:0 4:1:0 5:0:0",
 				"R 1 5:0:0 4:0:0 3:0:0 2:0:0 1:0:0 0:0:0",
 				"S 3:0:0 0:0:1 2:1:1 1:0:0 5:0:0 4:1:0",
+				"S 3:0:0 0:0:1 2:2:1 1:0:0:7",
+				"S 3:0:0 0:0:1 2:3:1 -1:0:0",
+				"V 1 1:0:0 1:1:1 1:0:1 2:0:0",
+				"V 0 1:0:0 1:1:1 1:0:1 0:1:0",
 				"S Hl 3:0:0 0:0:1 2:1:1 1:0:0 5:0:0 4:1:0",
 				"R 1 Hsfra 1:1:0 2:0:0 0:0:1",
 				"R 0 HTl 1:1:0 2:0:0 0:0:1",
@@ -920,6 +973,60 @@ func init() {
 				g.Count("rules: equal priorities")
 				g.Emit(c10RulePayload(g.R.Bool(), rs))
 			}
+			// R with 13..40 rules (beyond the insertion-sort range of sort.Sort), distinct priorities;
+			// V: ties with mixed outcomes, 0..40 rules — the observed run is validated, not predicted;
+			// S: sinks with equal / negative / fractional priorities and the three ways a sink fails
+			for rep := 0; rep < nRules; rep++ {
+				n := 13 + g.R.Intn(28)
+				perm := make([]int, n)
+				for i := range perm {
+					perm[i] = i - 3
+				}
+				for i := n - 1; i > 0; i-- {
+					j := g.R.Intn(i + 1)
+					perm[i], perm[j] = perm[j], perm[i]
+				}
+				rs := make([]c10Rule, n)
+				for i, p := range perm {
+					rs[i] = c10Rule{prio: p, fails: g.R.Intn(n) < 2, kids: g.R.Intn(4) == 0, mode: 1}
+				}
+				g.Count("rules: 13..40 rules")
+				g.Emit(c10RulePayload(g.R.Bool(), rs))
+
+				for k := 0; k < 3; k++ {
+					n = g.R.Intn(9)
+					if k == 2 {
+						n = 13 + g.R.Intn(28)
+					}
+					vs := make([]c10Rule, n)
+					for i := range vs {
+						vs[i] = c10Rule{prio: g.R.Intn(4) - 1, fails: g.R.Intn(4) == 0, kids: g.R.Intn(3) == 0, mode: 1}
+					}
+					g.Count("rules validated (ties with mixed outcomes)")
+					g.Emit("V" + strings.TrimPrefix(c10RulePayload(g.R.Bool(), vs), "R"))
+				}
+
+				if rep%2 == 0 {
+					n = 1 + g.R.Intn(7)
+					type grp struct {
+						fails, kids bool
+						mode        int
+					}
+					groups := map[int]grp{}
+					var ss []c10Rule
+					for i := 0; i < n; i++ {
+						p := g.R.Intn(5) - 1
+						gr, ok := groups[p]
+						if !ok {
+							gr = grp{g.R.Intn(4) == 0, g.R.Intn(3) == 0, 1 + g.R.Intn(3)}
+							groups[p] = gr
+						}
+						ss = append(ss, c10Rule{prio: p, fails: gr.fails, kids: gr.kids, mode: gr.mode, frac: g.R.Intn(10)})
+					}
+					g.Count("sinks: equal/negative/fractional priorities, raise / runtime error / return")
+					g.Emit("S" + strings.TrimPrefix(c10RulePayload(true, ss), "R 1"))
+				}
+			}
 			// B: exhaustive, then random longer sequences over more priorities
 			c10BookDFS(g, depth)
 			for i := 0; i < nBook; i++ {
@@ -974,11 +1081,26 @@ func init() {
 					hist, rest = rest[0][1:], rest[1:]
 				}
 				for _, s := range rest {
-					x := strings.Split(s, ":")
-					p, _ := strconv.Atoi(x[0])
-					rs = append(rs, c10Rule{p, x[1] == "1", x[2] == "1"})
+					rs = append(rs, c10ParseRule(s))
 				}
-				return c10RunRules(f[1] == "1", hist, rs)
+				return c10RunRules(f[1] == "1", hist, rs, false)
+			case "V":
+				// observed run (rule NAMES) goes to a side file and is validated by the model
+				var rs []c10Rule
+				for _, s := range f[2:] {
+					rs = append(rs, c10ParseRule(s))
+				}
+				obs := c10RunRules(f[1] == "1", "", rs, true)
+				if strings.HasPrefix(obs, "ERR") {
+					return obs
+				}
+				fl, err := os.OpenFile(fmt.Sprintf("c10-validate-%d.txt", os.Getpid()), os.O_APPEND|os.O_CREATE|os.O_WRONLY, 0644)
+				if err != nil {
+					return "ERR " + oneLine(err.Error())
+				}
+				fmt.Fprintf(fl, "%s ## %s\n", payload, obs)
+				fl.Close()
+				return "validated"
 			case "S":
 				var rs []c10Rule
 				hist, rest := "", f[1:]
@@ -986,9 +1108,7 @@ func init() {
 					hist, rest = rest[0][1:], rest[1:]
 				}
 				for _, s := range rest {
-					x := strings.Split(s, ":")
-					p, _ := strconv.Atoi(x[0])
-					rs = append(rs, c10Rule{p, x[1] == "1", x[2] == "1"})
+					rs = append(rs, c10ParseRule(s))
 				}
 				return c10RunSinks(hist, rs)
 			case "B":
